@@ -37,7 +37,7 @@ pub fn test(reg: &Reg, case: &Case, mut stats: Option<&mut Stats>) -> Verdict {
     if !case.script.is_all_continue() {
         let outr = oracles::run(e, &case.payload, src, &case.script);
         execs += 1;
-        if let Err((sig, what)) = oracles::c03_random(&outr) {
+        if let Err((sig, what)) = oracles::c03_random(e, &case.payload, src, &outr) {
             return Verdict::Violation(sig, json!({"what": what, "script": case.script.show(), "history": history(&outr.trace)}));
         }
     }
